@@ -177,6 +177,7 @@ def run(ctx):
                 res.mismatch(op[:300], want[:200], out[:200])
         res.extra['model_evaluations'] = len(ops)
     end_to_end(ctx, res)
+    after_history(ctx, res)
     import rogue
     # the answers this property is about are given in every run, whatever the random stream does: the first CHILD_SA answers of each
     # session widen a selector (alone, both, or as the first of two with an acceptable one after it) or flip the mode
@@ -315,6 +316,95 @@ def end_to_end(ctx, res):
                 check_installed('rekey')
             for key, what, at in h.findings[:2]:
                 res.fail(key, what, dict(rep, ops=S.ser_ops(h.ops[:at + 1])))
+
+
+def after_history(ctx, res):
+    """Narrowing must not depend on what the IKE_SA did before: two nested policies (1: any port, 2: one port), a prefix of earlier
+    exchanges (none, CHILD_SA rekey started by the requester / by its peer / twice), then a CHILD_SA for the narrow policy requested by
+    either end, whose honest answer is rewritten on the way (with the real keys) to the selectors of the wide policy on one side or
+    both.  Whatever is installed then must lie inside what the request proposed."""
+    from unittest.mock import patch
+    from configuration import Configuration
+    from ikesa import IkeSa
+    T = M.TrafficSelector
+    ip1, ip2 = ip_address('192.168.0.1'), ip_address('192.168.0.2')
+
+    def prot(index, key, port, proto):
+        e = {'index': index, 'ip_proto': proto, 'mode': 'transport', 'lifetime': 500, 'ipsec_proto': 'esp', 'encr': ['aes256']}
+        e[key] = port
+        return e
+
+    for proto in ('tcp', 'udp'):
+        for port in (80, 4500):
+            for prefix in ('none', 'rekey-own', 'rekey-peer', 'rekey-twice'):
+                for who in 'AB':
+                    for widen in ('i', 'r', 'both'):
+                        rep = {'scenario': 'after-history', 'proto': proto, 'port': port, 'prefix': prefix, 'requester': who, 'widen': widen}
+                        res.evaluations += 1
+                        res.nontrivial.add(('hist', proto, port, prefix, who, widen))
+                        res.count('hist:' + prefix)
+                        installed = []
+                        try:
+                            with patch('xfrm.Xfrm.send_recv'), patch('xfrm.Xfrm.delete_child_sa'), \
+                                    patch('xfrm.Xfrm.create_child_sa', side_effect=lambda sa, kid, *a, **k: installed.append((sa, kid))):
+                                cd = {'a': {'my_addr': str(ip1), 'peer_addr': str(ip2), 'my_auth': {'id': 'a@x', 'psk': 'k1'},
+                                            'peer_auth': {'id': 'b@x', 'psk': 'k2'}, 'dh': ['ecp256'],
+                                            'protect': [prot(1, 'peer_port', 0, proto), prot(2, 'peer_port', port, proto)]},
+                                      'b': {'my_addr': str(ip2), 'peer_addr': str(ip1), 'my_auth': {'id': 'b@x', 'psk': 'k2'},
+                                            'peer_auth': {'id': 'a@x', 'psk': 'k1'}, 'dh': ['ecp256'],
+                                            'protect': [prot(1, 'my_port', 0, proto), prot(2, 'my_port', port, proto)]}}
+                                conf = Configuration([ip1, ip2], cd)
+                                a = IkeSa(is_initiator=True, peer_spi=bytes(8), configuration=conf.get_ike_configuration(ip1, ip2),
+                                          my_addr=ip1, peer_addr=ip2)
+                                b = IkeSa(is_initiator=False, peer_spi=a.my_spi, configuration=conf.get_ike_configuration(ip2, ip1),
+                                          my_addr=ip2, peer_addr=ip1)
+                                pr = T.IpProtocol.TCP if proto == 'tcp' else T.IpProtocol.UDP
+                                n1, n2 = ip_network('192.168.0.1/32'), ip_network('192.168.0.2/32')
+
+                                def pump(x, y, msg):
+                                    for _ in range(12):
+                                        if msg is None:
+                                            return
+                                        msg = y.process_message(msg)
+                                        x, y = y, x
+                                pump(a, b, a.process_acquire(T.from_network(n1, 0, pr), T.from_network(n2, 0, pr), 1))
+                                req, oth = (a, b) if who == 'A' else (b, a)
+                                steps = {'none': [], 'rekey-own': [req], 'rekey-peer': [oth], 'rekey-twice': [req, req]}[prefix]
+                                for e in steps:
+                                    pump(e, oth if e is req else req, e.process_expire(e.child_sas[0].inbound_spi))
+                                if not (int(a.state) == int(b.state) == 10 and len(a.child_sas) == len(b.child_sas) == 1):
+                                    res.count('hist:setup-incomplete')
+                                    continue
+                                if who == 'A':
+                                    request = a.process_acquire(T.from_network(n1, 0, pr), T.from_network(n2, port, pr), 2)
+                                else:
+                                    request = b.process_acquire(T.from_network(n2, port, pr), T.from_network(n1, 0, pr), 2)
+                                sent = M.Message.parse(request, crypto=req.my_crypto)
+                                p_i = sent.get_payload(M.Payload.Type.TSi, True).traffic_selectors
+                                p_r = sent.get_payload(M.Payload.Type.TSr, True).traffic_selectors
+                                answer = M.Message.parse(oth.process_message(request), crypto=oth.my_crypto)
+                                wide_i = T.from_network(n1 if who == 'A' else n2, 0, pr)
+                                wide_r = T.from_network(n2 if who == 'A' else n1, 0, pr)
+                                for i, pl in enumerate(answer.encrypted_payloads):
+                                    if pl.type == M.Payload.Type.TSi and widen in ('i', 'both'):
+                                        answer.encrypted_payloads[i] = M.PayloadTSi([wide_i])
+                                    elif pl.type == M.Payload.Type.TSr and widen in ('r', 'both'):
+                                        answer.encrypted_payloads[i] = M.PayloadTSr([wide_r])
+                                del installed[:]
+                                req.process_message(answer.to_bytes())
+                        except Exception as e:      # the scenario itself, not the property: visible in the evidence, never an alarm
+                            res.count('hist:scenario-error:' + type(e).__name__)
+                            continue
+                        for sa, kid in installed:
+                            if sa is req and not (any(kid.tsi.is_subset(x) for x in p_i) and any(kid.tsr.is_subset(x) for x in p_r)):
+                                res.fail('widened-answer-installed:after-' + prefix,
+                                         '%s, history %s: asked for %s port %d only, the answer widened %s and ports %d-%d / %d-%d were installed'
+                                         % (who, prefix, proto, port, widen, kid.tsi.start_port, kid.tsi.end_port, kid.tsr.start_port,
+                                            kid.tsr.end_port), rep)
+                            elif sa is req:
+                                res.count('hist:installed-within-proposal')
+                        if not any(sa is req for sa, _ in installed):
+                            res.count('hist:refused')
 
 
 def replay(rep):
